@@ -349,6 +349,24 @@ def op_patterns(task):
     return out
 
 
+def op_module_patterns(task):
+    """the compiled regular expressions an imported module (and one of its classes) holds"""
+    import importlib
+    import re as _re
+    mod = importlib.import_module(task["module"])
+    seen, out = set(), []
+    spaces = [vars(mod)]
+    cls = getattr(mod, task.get("cls", ""), None)
+    if cls is not None:
+        spaces.append(vars(cls))
+    for ns in spaces:
+        for k, v in ns.items():
+            if isinstance(v, _re.Pattern) and id(v) not in seen:
+                seen.add(id(v))
+                out.append({"name": k, "pattern": v.pattern, "flags": v.flags})
+    return {"patterns": out}
+
+
 def op_rematch(task):
     """what the real compiled pattern answers on concrete strings (translation validation and
     replay of counter-models): [end, groupdict] or None"""
@@ -364,7 +382,8 @@ def op_rematch(task):
 def main():
     task = json.load(sys.stdin)
     json.dump({"operators": op_operators, "programs": op_programs, "literals": op_literals, "one": op_one,
-               "patterns": op_patterns, "rematch": op_rematch}[task["op"]](task), sys.stdout)
+               "patterns": op_patterns, "rematch": op_rematch,
+               "module_patterns": op_module_patterns}[task["op"]](task), sys.stdout)
 
 
 if __name__ == "__main__":
